@@ -66,6 +66,7 @@ static volatile int insec[MAXM];
 static int n_overlap, n_miss, n_cross, n_double, n_rootkill, n_stale, n_running, n_maxpar;
 static int nthreads, nmutex;
 static var* thr;             /* the Thread objects: an array in the main thread's frame (a root of its collector) */
+static var shared_arr;       /* an Array every thread may use under mx[0] (work kind 8); case flag s: owned by the main thread's collector */
 static int managed_threads;  /* case flag g: Thread objects are new(Thread, ..), i.e. owned by the main thread's collector */
 static var targ[MAXT];
 static int cur_phase;
@@ -224,6 +225,17 @@ static uint64_t work(struct TCtx* c, long kind, long n) {
         for (int i = 0; i < 40; i++) { snprintf(key, sizeof key, "h%d", i); set(current(Thread), $S(key), targ[i % MAXT]); }
         for (int i = 0; i < 40; i++) { snprintf(key, sizeof key, "h%d", i); h = mix(h, (uint64_t)c_int(get(current(Thread), $S(key)))); }
         for (int i = 0; i < 40; i++) { snprintf(key, sizeof key, "h%d", i); rem(current(Thread), $S(key)); }
+        if ((r & 3) == 0) maybe_yield(c);
+      }
+      break;
+    }
+    case 8: {   /* a container shared by all threads, every access inside a section of mutex 0 */
+      for (long r = 0; r < n; r++) {
+        with (held in mx[0]) {
+          for (int i = 0; i < 50; i++) push(shared_arr, $I(i));
+          for (int i = 0; i < 50; i++) pop(shared_arr);
+          h = mix(h, len(shared_arr));
+        }
         if ((r & 3) == 0) maybe_yield(c);
       }
       break;
@@ -417,6 +429,7 @@ static void one_case(char* line) {
   char* f_nm = next_tok(&s, '|');
   char* f_sched = next_tok(&s, '|');
   if (!f_nm || !f_sched) { P("BADCASE"); return; }
+  char f_nm_copy[32]; snprintf(f_nm_copy, sizeof f_nm_copy, "%s", f_nm);
   nmutex = atoi(f_nm); if (nmutex > MAXM) nmutex = MAXM;
   managed_threads = strchr(f_nm, 'g') != NULL;
   var thr_frame[MAXT];
@@ -441,6 +454,8 @@ static void one_case(char* line) {
   worker_function_object = fobj;
   for (int m = 0; m < MAXM; m++) mx[m] = new_raw(Mutex);
   for (int t = 0; t < MAXT; t++) targ[t] = new_raw(Int, $I(t));
+  var shared_root = strchr(f_nm_copy, 's') ? new(Array, Int) : new_raw(Array, Int);
+  shared_arr = shared_root;
 
   /* ---- phase A: every worker alone */
   cur_phase = 0;
